@@ -233,10 +233,10 @@ REQUIRED_PROBES = {
     "C13": {
         "quick": ["blockwise-fit", "memo-compared", "same-model-checked", "transform-after-faulted-transform", "cancel@line",
                   "reader:raise", "reader:short", "io:ENOSPC@mkdtemp", "io:ENOSPC@memmap-create", "io:EIO@memmap-flush",
-                  "io:EIO@memmap-open", "data:nan", "hashseed-pairs-compared", "task:alloc-failure"],
+                  "io:EIO@memmap-open", "data:nan", "hashseed-pairs-compared", "task:alloc-failure", "isolated-twin-compared"],
         "thorough": ["blockwise-fit", "memo-compared", "same-model-checked", "transform-after-faulted-transform", "cancel@line",
                      "reader:raise", "reader:short", "io:ENOSPC@mkdtemp", "io:ENOSPC@memmap-create", "io:EIO@memmap-flush",
-                     "io:EIO@memmap-open", "data:nan", "io:EACCES@rmtree", "hashseed-pairs-compared", "task:alloc-failure"],
+                     "io:EIO@memmap-open", "data:nan", "io:EACCES@rmtree", "hashseed-pairs-compared", "task:alloc-failure", "isolated-twin-compared"],
     },
     "C04": {
         "quick": ["growth", "depth>=2", "path.merge_all_sum_duplicates", "volume>capacity", "path.coo_increase_mem",
